@@ -53,6 +53,35 @@ class Src:
             parse_path = os.path.join(BUILD, "mut", rel.replace("/", "__"))
             os.makedirs(os.path.dirname(parse_path), exist_ok=True)
             open(parse_path, "wb").write(self.bytes)
+        # R20: zero-argument local `macro_rules! m { () => {{ BODY }}; }` inside function bodies are expanded textually
+        # (each `m!()` becomes `{ BODY }`) before parsing, so that the rules below see ordinary expressions
+        self.pre_rules = 0
+        t = self.bytes.decode()
+        for m in list(re.finditer(r"macro_rules!\s*(\w+)\s*\{\s*\(\s*\)\s*=>\s*\{\{", t)):
+            name = m.group(1)
+            # find the matching `}}` of the body by brace counting
+            i = m.end()
+            depth = 2
+            j = i
+            while j < len(t) and depth > 0:
+                if t[j] == "{":
+                    depth += 1
+                elif t[j] == "}":
+                    depth -= 1
+                j += 1
+            body = t[i:j - 2]
+            k = t.index("}", j)  # closing brace of macro_rules (after optional `;`)
+            uses = len(re.findall(r"\b" + name + r"!\(\)", t))
+            if uses:
+                t2 = t[:m.start()] + t[k + 1:]
+                t2 = re.sub(r"\b" + name + r"!\(\)", lambda _m: "{" + body + "}", t2)
+                t = t2
+                self.pre_rules += uses
+        if self.pre_rules:
+            self.bytes = t.encode()
+            parse_path = os.path.join(BUILD, "mut", rel.replace("/", "__"))
+            os.makedirs(os.path.dirname(parse_path), exist_ok=True)
+            open(parse_path, "wb").write(self.bytes)
         if not os.path.exists(VXSPAN):
             raise Inconclusive(f"{VXSPAN} not built (run MANIFEST.setup_cmd)")
         p = subprocess.run([VXSPAN, parse_path], capture_output=True)
@@ -581,6 +610,9 @@ class Gen:
 
     def _emit_fn(self, it):
         src = Src.get(it["rel"])
+        if src.pre_rules and ("R20", src.rel) not in self._consts:
+            self._consts.add(("R20", src.rel))
+            self.rewrites["R20-local-macro"] = self.rewrites.get("R20-local-macro", 0) + src.pre_rules
         impl, fn = find_fn(src, it["name"])
         if not self.vac and not it["external"]:
             self.auto_consts(src, fn)
@@ -657,6 +689,10 @@ class Gen:
                     pieces.append(("        " + c.text + ",\n", ("clause", c.id)))
         if it["external"]:
             ed.insert(fn["s"], "#[verifier::external_body]\n", ("trusted", f"external_body {it['name']}"))
+        if "no_decreases" in it["opts"]:
+            # `while let Some(x) = iter.next()` loops: vstd's prophetic iterator measure cannot be discharged at the
+            # loop end (DESIGN §2) => partial correctness only; termination of this function is NOT proved
+            ed.insert(fn["s"], "#[verifier::exec_allows_no_decreases_clause]\n", ("trusted", f"termination unproved {it['name']}"))
         at = body["s"]
         for k, (t, o) in enumerate(pieces):
             ed.insert(at, t, o)
@@ -748,9 +784,6 @@ class Gen:
             pieces = loop_spec(idx)
             if kind in ("while", "loop"):
                 b = kid(n, "body")
-                a = attrs_for(idx)
-                if a:
-                    ed.insert(n["s"], a, ("trusted", "no_decreases"))
                 for t, o in pieces:
                     ed.insert(b["s"], t, o)
             elif kind == "for":
@@ -798,17 +831,60 @@ class Gen:
             elif kind in ("any", "all"):
                 self.rw_any(it, src, fn, body, n, ed, pieces, idx, kind)
 
+        # R23: `X.ok_or_else(|| anyhow!(..))?`   ->  match X { Some(v) => v, None => return Err(opaque) }
+        # R24: `E.with_context(|| ..)?` / `E.context("..")?`  ->  match E { Ok(v) => v, Err(_) => return Err(opaque) }
+        dead = []  # source ranges deleted by a rewrite: nothing inside them is rewritten again
+        for n in walk(body):
+            if n["k"] == "Try" and kid(n, "expr")["k"] == "MethodCall":
+                mc = kid(n, "expr")
+                E = kid(mc, "receiver")
+                if mc["a"]["method"] == "ok_or_else" and len(kids(mc, "arg")) == 1 and kids(mc, "arg")[0]["k"] == "Closure":
+                    ed.replace(n["s"], E["s"], "(match ", ("rule", "R23"))
+                    ed.replace(E["e"], n["e"], " { Some(__v) => __v, None => return Err(anyhow::__opaque_error()) })", ("rule", "R23"))
+                    dead.append((E["e"], n["e"]))
+                    self.fired("R23")
+                elif mc["a"]["method"] in ("with_context", "context") and len(kids(mc, "arg")) == 1:
+                    ed.replace(n["s"], E["s"], "(match ", ("rule", "R24"))
+                    ed.replace(E["e"], n["e"], " { Ok(__v) => __v, Err(_) => return Err(anyhow::__opaque_error()) })", ("rule", "R24"))
+                    dead.append((E["e"], n["e"]))
+                    self.fired("R24")
         # R8: error-message construction and logging are outside every property
         for n in walk(body):
+            if any(a0 <= n["s"] and n["e"] <= b0 for a0, b0 in dead):
+                continue
             if n["k"] == "Macro" and n["a"]["mac"] in ("anyhow::anyhow", "anyhow"):
                 ed.replace(n["s"], n["e"], "anyhow::__opaque_error()", ("rule", "R8"))
                 self.fired("R8")
             elif n["k"] == "StmtMacro" and n["a"]["mac"] in ("debug", "trace", "info", "warn", "tracing::debug", "tracing::trace"):
                 ed.delete(n["s"], n["e"], ("rule", "R8"))
                 self.fired("R8")
+            elif n["k"] == "Macro" and n["a"]["mac"] in ("anyhow::bail", "bail"):
+                ed.replace(n["s"], n["e"], "return Err(anyhow::__opaque_error())", ("rule", "R8"))
+                self.fired("R8")
             elif n["k"] == "StmtMacro" and n["a"]["mac"] in ("anyhow::bail", "bail"):
                 ed.replace(n["s"], n["e"], "return Err(anyhow::__opaque_error());", ("rule", "R8"))
                 self.fired("R8")
+
+        # R21: `let x: String = V.into_iter().collect();`  ->  __string_from_chars(V)
+        for n in walk(body):
+            if n["k"] == "Local" and kid(n, "pat")["k"] == "PatType" and kid(n, "init") is not None:
+                ty = kid(kid(n, "pat"), "ty")
+                init = kid(n, "init")
+                if norm(src.text(ty)) == "String" and init["k"] == "MethodCall" and init["a"]["method"] == "collect" \
+                        and kid(init, "receiver")["k"] == "MethodCall" and kid(init, "receiver")["a"]["method"] == "into_iter":
+                    V = kid(kid(init, "receiver"), "receiver")
+                    ed.replace(init["s"], V["s"], "__string_from_chars(", ("rule", "R21"))
+                    ed.replace(V["e"], init["e"], ")", ("rule", "R21"))
+                    init["_handled"] = True
+                    self.fired("R21")
+        # R22: `C.encode_utf8(&mut B).as_bytes()`  ->  __encode_utf8_vec(C)
+        for n in walk(body):
+            if n["k"] == "MethodCall" and n["a"]["method"] == "as_bytes" and kid(n, "receiver")["k"] == "MethodCall" \
+                    and kid(n, "receiver")["a"]["method"] == "encode_utf8":
+                C = kid(kid(n, "receiver"), "receiver")
+                ed.replace(n["s"], C["s"], "__encode_utf8_vec(", ("rule", "R22"))
+                ed.replace(C["e"], n["e"], ")", ("rule", "R22"))
+                self.fired("R22")
 
         # R16: `E.map_err(F)?`  ->  `(match E { Ok(v) => v, Err(e) => return Err(F(e)) })`   (F a path)
         for n in walk(body):
@@ -892,6 +968,8 @@ class Gen:
         used_closures = set()
         for n in walk(body):
             if n["k"] == "MethodCall" and n["a"]["method"] == "collect":
+                if n.get("_handled"):
+                    continue
                 rc = kid(n, "receiver")
                 # R7: A.into_iter().chain(B).collect()  ->  __btree_chain_collect(A, B)
                 if rc["k"] == "MethodCall" and rc["a"]["method"] == "chain" and len(kids(rc, "arg")) == 1 \
